@@ -175,13 +175,20 @@ func aliasResRun(w *World) {
 	for i := 0; i < nsubs; i++ {
 		i := i
 		bp, uo := t.Flag(1, 2), t.Flag(1, 4)
-		masked := t.Flag(1, 4)
+		masked := t.Flag(1, 3)
+		incl := t.Flag(1, 2)
 		w.Go(fmt.Sprintf("s%d", i), true, func(task *Task) {
 			ro := []resource.ReadOption{resource.WithBackpressure(bp), resource.WithUpdatesOnly(uo)}
 			if masked {
 				ro = append(ro, resource.WithReadPaths(&testproto.TestAllTypes{}, "default_int32", "default_nested_message", "repeated_int32"))
 			}
 			if coll {
+				if incl {
+					ro = append(ro, resource.WithInclude(func(id string, m proto.Message) bool {
+						x, ok := m.(*testproto.TestAllTypes)
+						return ok && x != nil && x.DefaultInt32%2 == 0
+					}))
+				}
 				ch := col.Pull(ctx, ro...)
 				for {
 					task.Yield("recv")
